@@ -266,7 +266,18 @@ func (o *OracleC06) functionProbes(c *Chain, b *BlockCtx, a AggInfo, round []ora
 			break
 		}
 		o.count("permuted_calls")
-		if r.AggregateValue != first.AggregateValue {
+		same := r.AggregateValue == first.AggregateValue
+		if !same && method == "median" {
+			// two reporters can spell the same number differently (0x prefix, letter case): which spelling is stored
+			// follows the arrival order of equal values, the value does not
+			if x, ok1 := numVal(r.AggregateValue); ok1 {
+				if y, ok2 := numVal(first.AggregateValue); ok2 && x.Cmp(y) == 0 {
+					same = true
+					o.count("permutation_changed_only_the_spelling_of_the_value")
+				}
+			}
+		}
+		if !same {
 			// with an equal-weight tie the statement leaves the winner open only if it is fixed (C01); a change under
 			// permutation means it depends on arrival order
 			out = append(out, &Violation{Property: "C06", Oracle: "order-independence", Site: "aggregation-" + method, Class: "value-depends-on-arrival-order", Height: b.H,
